@@ -144,6 +144,8 @@ func histOps(reduced bool) []HOp {
 			add(HOp{Name: fmt.Sprintf("%s.SetInt64(%d)", dn, v), Dst: d, Do: func(z *Dec, s []*Dec) { z.SetInt64(v) }, PrecRule: prConst, PrecConst: 34, CopiesAttrsFrom: -1, ModeSet: -1})
 		}
 		add(HOp{Name: dn + ".SetUint64(max)", Dst: d, Do: func(z *Dec, s []*Dec) { z.SetUint64(math.MaxUint64) }, PrecRule: prConst, PrecConst: 34, CopiesAttrsFrom: -1, ModeSet: -1})
+		add(HOp{Name: dn + ".SetUint64(10^19)", Dst: d, Do: func(z *Dec, s []*Dec) { z.SetUint64(BW) }, PrecRule: prConst, PrecConst: 34, CopiesAttrsFrom: -1, ModeSet: -1})
+		add(HOp{Name: dn + ".SetUint64(10^19-1)", Dst: d, Do: func(z *Dec, s []*Dec) { z.SetUint64(BW - 1) }, PrecRule: prConst, PrecConst: 34, CopiesAttrsFrom: -1, ModeSet: -1})
 		strs := []string{"1.5", "-0", "1e-3", "0x1p-1", "Inf", "12345678901234567890123456789012345678901234567890", "-9.99e5"}
 		if reduced {
 			strs = []string{"1.5", "-0", "Inf", "12345678901234567890123456789012345678901234567890"}
@@ -152,7 +154,7 @@ func histOps(reduced bool) []HOp {
 			sv := sv
 			add(HOp{Name: fmt.Sprintf("%s.SetString(%q)", dn, sv), Dst: d, Do: func(z *Dec, s []*Dec) { z.SetString(sv) }, PrecRule: prConst, PrecConst: 34, CopiesAttrsFrom: -1, ModeSet: -1})
 		}
-		for _, f := range []float64{0.25, 1e300, -0.1} {
+		for _, f := range []float64{0.25, 1e300, -0.1, 12345, 4503599627370497} {
 			f := f
 			add(HOp{Name: fmt.Sprintf("%s.SetFloat64(%v)", dn, f), Dst: d, Do: func(z *Dec, s []*Dec) { z.SetFloat64(f) }, PrecRule: prConst, PrecConst: 17, CopiesAttrsFrom: -1, ModeSet: -1})
 		}
